@@ -52,6 +52,22 @@ theorem sumBy_le_of_mem (f g : Recv → Nat) (l : List Recv) (hle : ∀ x ∈ l,
       have h2 := ih (fun x hx => hle x (by simp [hx])) h
       simp [sumBy]; omega
 
+theorem sumBy_congr (f g : Recv → Nat) (l : List Recv) (h : ∀ x ∈ l, f x = g x) : sumBy f l = sumBy g l := by
+  induction l with
+  | nil => rfl
+  | cons a t ih =>
+    simp only [sumBy]
+    rw [h a (by simp), ih (fun x hx => h x (by simp [hx]))]
+
+theorem sumBy_add (f g : Recv → Nat) (l : List Recv) : sumBy (fun r => f r + g r) l = sumBy f l + sumBy g l := by
+  induction l with
+  | nil => rfl
+  | cons a t ih => simp only [sumBy, ih]; omega
+
+/-- connection credit a stream has given back: what the application consumed, or — once the stream was reset
+    and its buffer dropped — everything it had been credited -/
+def creditUsed (r : Recv) : Nat := if r.state = .reset then r.fc.released else r.appRead
+
 theorem sumBy_mono (f g : Recv → Nat) (l : List Recv) (hle : ∀ x ∈ l, g x ≤ f x) : sumBy g l ≤ sumBy f l := by
   induction l with
   | nil => simp [sumBy]
